@@ -1,6 +1,7 @@
 package props
 
 import (
+	"strings"
 	"context"
 	"encoding/hex"
 	"errors"
@@ -320,6 +321,7 @@ func c16Codecs(r *tr.Run, rng *rand.Rand, nm int) int {
 	}
 	defer f.Close()
 	var lastEnv *message.Message
+	envSeq := 0
 	envelope := func(topic string, m *message.Message) {
 		lastEnv = nil
 		orig := c16Project(m)
@@ -331,6 +333,14 @@ func c16Codecs(r *tr.Run, rng *rand.Rand, nm int) int {
 		}
 		env := capture.Calls()[before].Msgs[0]
 		lastEnv = env.Copy()
+		envSeq++
+		if envSeq%2 == 0 {
+			// the envelope message picks up metadata of its own on its way (a decorated outbox publisher, a broker that adds
+			// partition / trace keys on the subscriber side): that is the envelope's, not the enveloped message's
+			env.Metadata.Set("trace-id", "added-on-the-way")
+			env.Metadata.Set("correlation_id", "the-envelope's-own")
+			env.Metadata.Set("k", "not the message's k")
+		}
 		db := len(dst.Calls())
 		if !src.Emit("fwd", env) {
 			r.Emit("hung", "what", "forwarder emit")
@@ -572,7 +582,7 @@ func c16Codecs(r *tr.Run, rng *rand.Rand, nm int) int {
 				n++
 				// request-reply replies: result and error text
 				rm := requestreply.BackendPubsubJSONMarshaler[C16J]{}
-				for ei, et := range []string{"none", c16Str(c16StrClasses[(round+1)%5], rng, rep), "", "wrapped"} { // (an error whose text is empty is an error)
+				for ei, et := range []string{"none", c16Str(c16StrClasses[(round+1)%5], rng, rep), "", "wrapped", strings.Repeat("a long error text é世 / ", 60+rng.Intn(200))} { // (an error whose text is empty is an error)
 					var herr error
 					if et != "none" {
 						herr = errors.New(et)
